@@ -214,23 +214,42 @@ func c02Top(g G, i int, compNS bool) string {
 	case 4:
 		return "<stream:error><" + []string{"conflict", "host-unknown", "system-shutdown"}[g.N("sterr", 3)] + " xmlns='" + nsStreams + "'/><text xmlns='" + nsStreams + "'>bye</text></stream:error>"
 	case 5:
+		if g.Pct("success-text", 30) {
+			return "<success xmlns='" + nsSASL + "'>dj1yUTA9</success>"
+		}
 		return "<success xmlns='" + nsSASL + "'/>"
 	case 6:
 		return "<failure xmlns='" + nsSASL + "'><not-authorized/><text xml:lang='en'>no</text></failure>"
 	case 7:
+		if g.Pct("enabled-children", 25) {
+			return "<enabled xmlns='" + nsSM + "' id='some-id' resume='true'>" + c02Tree(g, 1, "unknown:ns") + "</enabled>"
+		}
 		return "<enabled xmlns='" + nsSM + "' id='some-id' resume='true' max='300'/>"
 	case 8:
+		if g.Pct("resumed-children", 25) {
+			return "<resumed xmlns='" + nsSM + "' previd='some-id' h='7'><iq xmlns='jabber:client' id='inside-resumed' type='get'/></resumed>"
+		}
 		return "<resumed xmlns='" + nsSM + "' previd='some-id' h='7'/>"
 	case 9:
 		return "<resume xmlns='" + nsSM + "' previd='some-id' h='3'/>"
 	case 10:
+		if g.Pct("r-children", 25) {
+			// nothing forbids content inside an element the library only knows as empty
+			return "<r xmlns='" + nsSM + "'>" + c02Tree(g, 2, []string{"unknown:ns", "jabber:client"}[g.N("rns", 2)]) + "</r>"
+		}
 		return "<r xmlns='" + nsSM + "'/>"
 	case 11:
+		if g.Pct("a-children", 25) {
+			return fmt.Sprintf("<a xmlns='%s' h='%d'><message xmlns='jabber:client' id='inside-a'><body>x</body></message>text</a>", nsSM, g.N("h", 1000))
+		}
 		return fmt.Sprintf("<a xmlns='%s' h='%d'/>", nsSM, g.N("h", 1000))
 	case 12:
 		return "<failed xmlns='" + nsSM + "' h='2'><" + []string{"unexpected-request", "item-not-found", "internal-server-error"}[g.N("failcond", 3)] + " xmlns='" + nsStanzas + "'/></failed>"
 	case 13:
 		if compNS {
+			if g.Pct("handshake-children", 25) {
+				return "<handshake><presence xmlns='jabber:client' id='inside-handshake'/></handshake>"
+			}
 			return "<handshake/>"
 		}
 		return "<handshake xmlns='jabber:component:accept'>abcdef</handshake>"
